@@ -338,6 +338,7 @@ func runC10(c *Ctx) {
 			c.Disagree(Disagreement{Kind: "impl!=spec", Class: "sm2/inputs-modified-or-unstable", Request: before, Impl: snap() + " " + sigSnap, Spec: before, Stream: "sm2.inputs"})
 		}
 	}
+	runSM4Wrap(c) // Block.Encrypt/Decrypt on overlapping sub-slices of one buffer (sm4wrap.go, Props/C05Wrap.lean)
 }
 
 func init() { runners["C10"] = runC10 }
